@@ -35,6 +35,10 @@ type c17World struct {
 	shared   *common.ErrorResponse
 	sharedEn reflect.Value
 	free     bool // free-running (race pass): no scheduler
+	// resources below an existing root that are registered on the server only after the handler was obtained
+	srv      restli.Server
+	late     []func()
+	lateOnce sync.Once
 }
 
 func (w *c17World) tid() int {
@@ -138,8 +142,13 @@ func newC17World(u *schema.Universe, free bool) *c17World {
 				return outs
 			}))
 		}
+		if len(r.Segments) > 1 {
+			w.late = append(w.late, func() { b.Register(srv, mock.Interface()) })
+			continue
+		}
 		b.Register(srv, mock.Interface())
 	}
+	w.srv = srv
 	w.handler = srv.Handler()
 	bu, _ := url.Parse("http://h")
 	w.client = &restli.Client{Client: &http.Client{Transport: &c17Transport{w}}, HostnameResolver: &restli.SimpleHostnameResolver{Hostname: bu}, StrictResponseDeserialization: true}
@@ -307,7 +316,24 @@ func c17Requests(u *schema.Universe) []c17Req {
 		return schema.Base(cs.Schema).With("s", schema.VS(cs.Schema.Field("s").Type, s))
 	}
 	strT := schema.P(schema.String)
+	var sub *schema.Resource
+	for _, r := range u.Resources {
+		if r.Name() == "subColl" {
+			sub = r
+		}
+	}
 	return []c17Req{
+		// the server keeps being configured after the handler was obtained: sub-resources of roots the handler
+		// serves are registered; the handler is a snapshot, so a request to one of them is a 404 before and after
+		{"register-late", func(w *c17World, t int) string {
+			w.lateOnce.Do(func() {
+				for _, f := range w.late {
+					f()
+				}
+			})
+			return "registered"
+		}},
+		{"get-late(subColl)", func(w *c17World, t int) string { return call(w, t, sub, "Get", "p1", int64(5)) }},
 		{"get(k1)", func(w *c17World, t int) string { return call(w, t, cs, "Get", "k1") }},
 		{"get(k2)", func(w *c17World, t int) string { return call(w, t, cs, "Get", "k2") }},
 		{"get(err)", func(w *c17World, t int) string { return call(w, t, cs, "Get", "err-a") }},
